@@ -2,6 +2,9 @@ SPECIFICATION MCSpec
 CONSTANT Variant = "two"
 CONSTANT StrictEvents = TRUE
 CONSTANT FixF5 = TRUE
+CONSTANT FixF26 = TRUE
+CONSTANT FixF27 = TRUE
+CONSTANT FixF28 = TRUE
 CONSTANT FixF23 = TRUE
 CONSTANT AddFirst = TRUE
 CONSTANT Procs = {"p1", "p2"}
